@@ -120,6 +120,28 @@ partial def pyCompare (op : String) : PV → PV → Except PE PV
 def repeatList {α} (xs : List α) (n : Int) : List α :=
   (List.replicate n.toNat xs).flatten
 
+/-- `obj[lo:hi]` for str / list with bounds None / bool / int -/
+def pySlice (obj lo hi : PV) : Except PE PV :=
+  let bound (len : Nat) (b : PV) (dflt : Nat) : Except PE Nat :=
+    match b with
+    | .none => .ok dflt
+    | b => match asInt b with
+      | some i => .ok (if i < 0 then (i + len).toNat else min i.toNat len)
+      | Option.none => .error .typeErr
+  match obj with
+  | .str s =>
+    let cs := s.toList
+    match bound cs.length lo 0, bound cs.length hi cs.length with
+    | .ok a, .ok b => .ok (.str (String.ofList ((cs.drop a).take (b - a))))
+    | .error e, _ => .error e
+    | _, .error e => .error e
+  | .list xs =>
+    match bound xs.length lo 0, bound xs.length hi xs.length with
+    | .ok a, .ok b => .ok (.list ((xs.drop a).take (b - a)))
+    | .error e, _ => .error e
+    | _, .error e => .error e
+  | _ => .error .typeErr
+
 partial def pyApply (op : POp) (vs : List PV) : Except PE PV :=
   let intBin (f : Int → Int → Except PE PV) : Except PE PV :=
     match vs with
@@ -246,7 +268,33 @@ partial def pyApply (op : POp) (vs : List PV) : Except PE PV :=
       | .str s :: extra => (s.toList.mapM fun c => pyApply f (.str (String.singleton c) :: extra)).map PV.list
       | .list xs :: extra => (xs.mapM fun x => pyApply f (x :: extra)).map PV.list
       | _ => .error .typeErr
-    else .error (.other ("unknown-op-" ++ op))
+    else match (match op.splitOn "#" with
+        | [b, sh] => some (b, sh, false) | [b, sh, "r"] => some (b, sh, true) | _ => Option.none) with
+    | some (base, shape, rev) =>
+      -- operands holding references were flattened by the driver (their references are collected and
+      -- their values resolved left to right, exactly like resolve_ref / resolve_value do recursively);
+      -- `shape` says how to pack the resolved values back: p = plain, L<k> = list of k, S = slice lo:hi
+      match vs with
+      | [] => .error .typeErr
+      | obj :: flat =>
+        if shape == "S" && base == "getitem" then
+          match flat with
+          | [lo, hi] => pySlice obj lo hi
+          | _ => .error (.other "bad-slice-shape")
+        else
+          let rec pack : List String → List PV → Option (List PV)
+            | [], [] => some []
+            | [], _ :: _ => Option.none
+            | "p" :: ts, v :: rest => (pack ts rest).map (v :: ·)
+            | t :: ts, rest =>
+              if t.startsWith "L" then
+                let k := (t.drop 1).toString.toNat!
+                if rest.length < k then Option.none else (pack ts (rest.drop k)).map (PV.list (rest.take k) :: ·)
+              else Option.none
+          match pack (shape.splitOn ",") flat with
+          | some packed => pyApply base (arrange rev obj packed)
+          | Option.none => .error (.other "bad-shape")
+    | Option.none => .error (.other ("unknown-op-" ++ op))
 
 def hasAttr (v : PV) (op : POp) : Bool :=
   match v, op with
@@ -282,6 +330,20 @@ def parseArg (j : Json) : Except String (Arg PV) := do
 def parseArgs (j : Json) (k : String) : Except String (List (Arg PV)) := do
   (← getArr j k).toList.mapM parseArg
 
+/-- operands of an operation, containers flattened: (atomic operands, shape) -/
+def parseShaped (j : Json) (k : String) : Except String (List (Arg PV) × Option String) := do
+  let items ← (← getArr j k).toList.mapM fun a => do
+    match a.getObjVal? "L", a.getObjVal? "S" with
+    | .ok l, _ =>
+      let xs ← (← l.getArr?).toList.mapM parseArg
+      return (xs, s!"L{xs.length}")
+    | _, .ok sl =>
+      let xs ← (← sl.getArr?).toList.mapM parseArg
+      return (xs, "S")
+    | _, _ => return ([← parseArg a], "p")
+  let shape := ",".intercalate (items.map (·.2))
+  return ((items.map (·.1)).flatten, if items.all (·.2 == "p") then Option.none else some shape)
+
 /-- API form ↦ (function recorded in the operation, reverse flag) — the hand-written
 counterpart of the dunder table of `class rx` and of `reactive_ops` -/
 def formOp (form : String) : Except String (POp × Bool) :=
@@ -303,13 +365,20 @@ def parseStmt (j : Json) : Except String (Stmt PV POp) := do
   | "rootp" => return .rootp (← getNat j "p")
   | "op" =>
     let (o, rev) ← formOp (← getStr j "op")
-    return .op (← getNat j "n") o rev (← parseArgs j "args")
+    let (args, shape) ← parseShaped j "args"
+    match shape with
+    | Option.none => return .op (← getNat j "n") o rev args
+    | some sh =>
+      -- `reverse=True` only moves the pipeline object behind the first (packed) operand: done by the packing
+      return .op (← getNat j "n") (o ++ "#" ++ sh ++ (if rev then "#r" else "")) false args
   | "meth" => return .meth (← getNat j "n") ("m:" ++ (← getStr j "op")) (← parseArgs j "args")
   | "bind" => return .bind (← getStr j "f") (← parseArgs j "args")
   | "where" => return .where_ (← parseArg (← j.getObjVal? "c")) (← parseArg (← j.getObjVal? "x")) (← parseArg (← j.getObjVal? "y"))
   | "watch" => return .watch (← getNat j "n")
   | "set" => return .set (← getNat j "p") (← parseVal (← j.getObjVal? "v"))
   | "read" => return .read (← getNat j "n")
+  | "ref" => return .ref (← getNat j "n")
+  | "readref" => return .readref (← getNat j "h")
   | s => throw s!"unknown statement {s}"
 
 def parseOutcome (j : Json) : Except String (Outcome PV PE) := do
@@ -344,6 +413,7 @@ def jOutcome : Outcome PV PE → Json
 def stmtKind : Stmt PV POp → String
   | .lit _ => "lit" | .obj _ => "obj" | .rootp _ => "rootp" | .op .. => "op" | .meth .. => "meth"
   | .bind .. => "bind" | .where_ .. => "where" | .watch _ => "watch" | .set .. => "set" | .read _ => "read"
+  | .ref _ => "ref" | .readref _ => "readref"
 
 /-- which branch of the model a statement exercises (coverage only) -/
 def branchOf (w : World PV PE POp) (s : Stmt PV POp) (o : Outcome PV PE) : List String :=
@@ -366,7 +436,8 @@ def branchOf (w : World PV PE POp) (s : Stmt PV POp) (o : Outcome PV PE) : List 
     | .set p v =>
       (if pyEq (w.vals p) v then (if w.vals p == v then ["set:identical"] else ["set:equal-not-identical"]) else ["set:changed"]) ++
       ((consumersOf w p).map fun c => match c with
-        | .trigX .. => "consumer:trigger_x" | .trigY .. => "consumer:trigger_y" | .watch .. => "consumer:watch")
+        | .trigX .. => "consumer:trigger_x" | .trigY .. => "consumer:trigger_y" | .watch .. => "consumer:watch"
+        | .sync .. => "consumer:sync_refs")
     | .op n _ rev args =>
       (if rev then ["op:reverse"] else []) ++
       (args.map fun a => match a with | .lit _ => "arg:literal" | .node _ => "arg:rx" | .param _ => "arg:parameter") ++
@@ -384,6 +455,10 @@ def runModel (fuel : Nat) : World PV PE POp → List (Stmt PV POp) → List (Out
     let b := branchOf w s o
     match o with
     | .createErr _ | .bad | .fuel => ([o], b)
+    | .set _ (some _) =>
+      -- an exception escaping an update also skips the invalidation watchers registered after the raising
+      -- `_sync_refs`; that is not modelled: a program with reference holders ends there
+      if w1.holders.isEmpty then let (os, bs) := runModel fuel w1 ss; (o :: os, b ++ bs) else ([o], b)
     | _ => let (os, bs) := runModel fuel w1 ss; (o :: os, b ++ bs)
 
 def handle (req : Json) : Except String Json := do
